@@ -225,6 +225,11 @@ def run(prog, rep, tier, repo):
     # the forecast step dots the history with coeffs without a further reversal
     for kk in eng.visited:
         rep.touch(kk)
+    # ---- the fit and the autocovariances use every observation: a value filter on the way must keep every finite value
+    from ..precond import check_data_filters
+    check_data_filters(prog, rep, 'data-filter', sorted(k for k, b in prog.pdb.bodies.items() if k.startswith('timeseries::') and b.kind != 'closure'),
+                       what='so the series that is fitted is not the series that was given')
+    rep.floor('data-filter', 1, 'scan of timeseries::')
     return {}
 
 
